@@ -63,18 +63,19 @@ type driver struct {
 	views       map[*execRec]*execView
 	gate        chan struct{}
 
-	bcAddr        string // "%p" of the BuildClient, to find its goroutine in dumps
-	shutdownDone  bool
-	armedSteps    int
-	stepsAfter    int
-	postBudget    int
-	errorsOnly    bool
-	windDown      bool
-	windReplies   int
-	errReplies    int
-	nextID        int
-	inconclusive  string
-	stepsExecuted int
+	bcAddr           string // "%p" of the BuildClient, to find its goroutine in dumps
+	shutdownDone     bool
+	errAfterShutdown int
+	armedSteps       int
+	stepsAfter       int
+	postBudget       int
+	errorsOnly       bool
+	windDown         bool
+	windReplies      int
+	errReplies       int
+	nextID           int
+	inconclusive     string
+	stepsExecuted    int
 }
 
 const watchdog = 40 * time.Second
@@ -535,6 +536,16 @@ func (d *driver) advance(dur time.Duration) {
 func (d *driver) step() {
 	rng := d.rng
 	cur := d.curExec()
+	if d.syncPending && d.cfg.Real && d.shutdownDone && d.errAfterShutdown < 2 && d.cfg.Base%2 == 0 {
+		// Exercise LaunchWorkerThread's "error while terminating" arm
+		// (uninterruptible back-off, then keep synchronizing).
+		d.errAfterShutdown++
+		d.m.mu.Lock()
+		d.m.situation("real-loop-error-after-shutdown")
+		d.m.mu.Unlock()
+		d.sendReply("error")
+		return
+	}
 	if d.windDown {
 		switch {
 		case d.syncPending:
